@@ -205,6 +205,17 @@ func c10Scenarios(seed uint64, thorough bool) []c10scn {
 			}
 		}
 	}
+	// a local Shutdown in progress: the wait for the local close after CloseConnectionResponse + EOF is legitimate here
+	gr := wraw(c10frame{1, 63, 0, renPayload(0)}.bytes())
+	sd := func(name string, reply c10op) {
+		add(mk("sd:"+name, 1, []c10op{gr, {kind: 's'}, {kind: 'r'}, reply}))
+	}
+	sd("accepted", wraw(c10frame{1, 4, 0, statusPayload(0)}.bytes()))
+	sd("refused", wraw(c10frame{1, 4, 0, statusPayload(100)}.bytes()))
+	sd("oversize", wraw(vframe{ver: 1, typ: 4, id: 0, lieLen: uint32(10 + limit + 1)}.bytes()))
+	sd("othertype", wraw(c10frame{1, 12, 0, statusPayload(0)}.bytes()))
+	sd("undecodable", wraw(c10frame{1, 4, 0, []byte{1, 2, 3}}.bytes()))
+	sd("silent", wraw(nil))
 	return out
 }
 
@@ -262,10 +273,12 @@ func (s c10scn) run() (req, obs string) {
 	go vdrain(peer, got)
 
 	type caller struct {
-		id   string
-		res  chan string
-		done chan struct{}
+		id       string
+		res      chan string
+		done     chan struct{}
+		shutdown bool
 	}
+	sdArg := ""
 	var callers []*caller
 	var regs []string
 	var stream []string
@@ -327,10 +340,29 @@ func (s c10scn) run() (req, obs string) {
 				}
 				cl.res <- fmt.Sprintf("ok:%d:%d:%d", rt, len(data), vfnv(fnvOff, data))
 			}()
+		case 's':
+			cl := &caller{res: make(chan string, 1), done: make(chan struct{}), shutdown: true}
+			callers = append(callers, cl)
+			pending = cl
+			go func() {
+				defer close(cl.done)
+				defer func() {
+					if r := recover(); r != nil {
+						cl.res <- "panic"
+					}
+				}()
+				ctx, cancel := context.WithTimeout(context.Background(), 4*time.Second)
+				defer cancel()
+				cl.res <- errClass(c.Shutdown(ctx))
+			}()
 		case 'r':
 			select {
 			case f, ok := <-got:
-				if ok && pending != nil {
+				if ok && pending != nil && pending.shutdown {
+					pending.id = fmt.Sprintf("sd%d", f.id)
+					sdArg = fmt.Sprintf(" sd=%d", f.id)
+					regs = append(regs, fmt.Sprintf("%d@%d", f.id, pos))
+				} else if ok && pending != nil {
 					pending.id = fmt.Sprint(f.id)
 					regs = append(regs, fmt.Sprintf("%d@%d", f.id, pos))
 				}
@@ -372,8 +404,13 @@ func (s c10scn) run() (req, obs string) {
 		if r == "deadline" {
 			r = "timeout"
 		}
+		if cl.shutdown && r != "nil" && r != "timeout" && r != "panic" {
+			r = "err"
+		}
 		cres = append(cres, cl.id+"="+r)
-		cids = append(cids, cl.id)
+		if !cl.shutdown {
+			cids = append(cids, cl.id)
+		}
 	}
 	runtime.ReadMemStats(&ms1)
 	delta := ms1.TotalAlloc - ms0.TotalAlloc
@@ -399,7 +436,7 @@ func (s c10scn) run() (req, obs string) {
 	if len(stream) > 0 {
 		st = strings.Join(stream, "+")
 	}
-	req = fmt.Sprintf("c10 %d %s %d %s %s %s %s", s.ver, vjoin(hs), d, vjoin(cids), vjoin(steps), vjoin(regs), st)
+	req = fmt.Sprintf("c10 %d %s %d %s %s %s %s%s", s.ver, vjoin(hs), d, vjoin(cids), vjoin(steps), vjoin(regs), st, sdArg)
 	obs = fmt.Sprintf("connect=%s callers=%s alloc=%s", connect, vjoin(cres), alloc)
 	return req, obs
 }
